@@ -37,13 +37,12 @@ impl RtpsStatefulReader {
             writer_proxy.remote_group_entity_id,
             writer_proxy.reliability_kind,
         );
-        if let Some(wp) = self
+        // A writer that is already matched keeps its protocol state
+        if !self
             .matched_writers
-            .iter_mut()
-            .find(|wp| wp.remote_writer_guid() == writer_proxy.remote_writer_guid)
+            .iter()
+            .any(|wp| wp.remote_writer_guid() == writer_proxy.remote_writer_guid)
         {
-            *wp = rtps_writer_proxy;
-        } else {
             self.matched_writers.push(rtps_writer_proxy);
         }
     }
